@@ -992,6 +992,10 @@ func (rl *Shell) viYankTo() {
 func (rl *Shell) viYankWholeLine() {
 	rl.History.SkipSave()
 
+	if rl.line.Len() == 0 {
+		return
+	}
+
 	// calculate line selection.
 	rl.selection.Mark(rl.cursor.Pos())
 	rl.selection.Visual(true)
